@@ -326,7 +326,7 @@ def run_split3(ctx, cases):
         before = gl.snap(g)
         line = 'go.split %s %s' % (gl.enc_sys(system), gl.enc_grad(g))
         try:
-            parts = pp.split_gradient(g, system)
+            parts = gl.call_with_default(system, c.get('default_sys'), pp.split_gradient, g)
             err = None
         except Exception as e:
             parts, err = None, e
@@ -446,6 +446,8 @@ def gen_split3_cases(rng, n):
             c = {'stream': 'split3', 'sys': sysd, 'g': gen_ext(rng, sysd)}
         else:
             c = {'stream': 'split3', 'sys': sysd, 'g': gen_arb(rng, sysd)}
+        if rng.random() < 0.15:
+            c['default_sys'] = True      # system taken from the library default
         cs.append(c)
     return cs
 
@@ -470,7 +472,7 @@ def run_splitat(ctx, cases):
         tp = c['tp']
         line = 'go.splitat %s %s %s' % (gl.enc_sys(system), gl.enc_grad(g), qtok(F(tp)))
         try:
-            res = pp.split_gradient_at(g, tp, system)
+            res = gl.call_with_default(system, c.get('default_sys'), pp.split_gradient_at, g, tp)
             err = None
         except Exception as e:
             res, err = None, e
@@ -492,6 +494,8 @@ def run_splitat(ctx, cases):
         where = ('after-end' if K >= ke else 'at-or-before-0' if K <= 0 else 'at-start' if K == kd else
                  'in-delay' if K < kd else 'inside')
         ctx.count('splitat.%s.%s%s' % (kind, where, '.offraster' if c.get('offraster') else ''))
+        if c.get('default_sys'):
+            ctx.count('splitat.system_from_library_default')
         model_cmp = where in ('inside', 'in-delay') or (where == 'after-end' and K > ke)
         if c.get('offraster') or c.get('malformed'):
             if c.get('offraster'):
@@ -585,9 +589,13 @@ def gen_splitat_cases(rng, n_grads, per_grad):
             rest = [x for x in allk if x not in must]
             rng.shuffle(rest)
             allk = must + rest[:max(0, per_grad - len(must))]
+        dflt = rng.random() < 0.15
         for K in allk:
             jit = rng.choice([0.0, 0.0, 0.0, 0.0, 0.2, -0.2, 0.31])
-            cs.append({'stream': 'splitat', 'sys': sysd, 'g': g, 'K': K, 'tp': (K + jit) * r if jit else K * r})
+            c = {'stream': 'splitat', 'sys': sysd, 'g': g, 'K': K, 'tp': (K + jit) * r if jit else K * r}
+            if dflt:
+                c['default_sys'] = True  # system taken from the library default (Opts.set_as_default)
+            cs.append(c)
     return cs
 
 
